@@ -485,6 +485,10 @@ pub fn exec_expect(line: &str, expect: Option<bool>, rec: &mut Recorder) {
         e2e::exec(&t, line, rec);
         return;
     }
+    if t.first() == Some(&"tam") {
+        e2e::exec_tamper(&t, line, rec);
+        return;
+    }
     let Some(c) = Case::parse(&t) else {
         rec.stat("skipped.unparsable-case");
         return;
@@ -910,9 +914,78 @@ fn directed(rec: &mut Recorder) {
     }
 }
 
-/// hand-built adversarial cases (also in corpus/C08/*.case)
+/// hand-built cases for arms of `verify_nsec` that the generators above do not reach (found by the
+/// coverage report): `prepend_label("*")` failing on a 254/255-octet encloser (only possible when
+/// the SOA owner *is* the query name), RRSIGs in the answer section whose trimmed owner is not an
+/// ancestor of the query name / that are not Secure / with too large a Labels field, several
+/// wildcard NSEC owners to choose `wildcard_base_name` from
 fn adversarial() -> Vec<String> {
-    vec![]
+    let n = |s: &str| Name::from_ascii(s).unwrap();
+    let mut v: Vec<Case> = vec![];
+    // names of 253, 254 and 255 octets on the wire
+    for last in [59usize, 60, 61] {
+        let l63 = "a".repeat(63);
+        let long = n(&format!("{l63}.{l63}.{l63}.{}.", "b".repeat(last)));
+        let owner = n(&format!("{l63}.{l63}.{}.", "b".repeat(last)));
+        for rcode in [3u16, 0] {
+            v.push(Case {
+                q: long.clone(),
+                qtype: T_A,
+                soa: Some(long.clone()),
+                rcode,
+                answers: vec![],
+                nsecs: vec![NsecRec { owner: owner.clone(), next: n("z."), types: vec![T_A, T_RRSIG, T_NSEC] }],
+            });
+        }
+    }
+    // answer-section RRSIGs that `wildcard_base_name` must skip
+    let q = n("a.z.w.x.");
+    let cov = NsecRec { owner: n("x.y.w.x."), next: n("xx.x."), types: vec![T_A, T_RRSIG, T_NSEC] };
+    let good = Ans { name: q.clone(), secure: true, rrsig_labels: Some(2) };
+    for extra in [
+        Ans { name: n("b.y.x."), secure: true, rrsig_labels: Some(2) },  // trimmed y.x. is not above the query name
+        Ans { name: n("b.y.x."), secure: true, rrsig_labels: Some(1) },  // trimmed x. is above it: fewer labels win
+        Ans { name: q.clone(), secure: false, rrsig_labels: Some(1) },   // not Secure
+        Ans { name: q.clone(), secure: true, rrsig_labels: Some(4) },    // not a wildcard RRSIG
+        Ans { name: q.clone(), secure: true, rrsig_labels: Some(9) },
+        Ans { name: n("c.x."), secure: true, rrsig_labels: Some(1) },    // shorter owner, labels < owner labels
+    ] {
+        for order in [0, 1] {
+            let mut answers = vec![Ans { name: q.clone(), secure: true, rrsig_labels: None }, good.clone(), extra.clone()];
+            if order == 1 {
+                answers.swap(1, 2);
+            }
+            for soa in [None, Some(n("x."))] {
+                v.push(Case { q: q.clone(), qtype: T_A, soa, rcode: 0, answers: answers.clone(), nsecs: vec![cov.clone()] });
+            }
+        }
+        // the extra RRSIG alone
+        v.push(Case {
+            q: q.clone(),
+            qtype: T_A,
+            soa: None,
+            rcode: 0,
+            answers: vec![Ans { name: q.clone(), secure: true, rrsig_labels: None }, extra.clone()],
+            nsecs: vec![cov.clone()],
+        });
+    }
+    // wildcard NODATA with several wildcard NSEC owners above the query name
+    for qt in [T_TXT, T_A] {
+        v.push(Case {
+            q: n("a.z.w.x."),
+            qtype: qt,
+            soa: Some(n("x.")),
+            rcode: 0,
+            answers: vec![],
+            nsecs: vec![
+                cov.clone(),
+                NsecRec { owner: n("*.w.x."), next: n("x.w.x."), types: vec![T_A, T_RRSIG, T_NSEC] },
+                NsecRec { owner: n("*.x."), next: n("a.x."), types: vec![T_A, T_RRSIG, T_NSEC] },
+                NsecRec { owner: n("*.q.x."), next: n("r.x."), types: vec![T_A, T_RRSIG, T_NSEC] },
+            ],
+        });
+    }
+    v.iter().map(|c| c.line()).collect()
 }
 
 pub fn run(o: &Opts, rec: &mut Recorder) {
